@@ -4,7 +4,6 @@ From AV Require Import Base.ListX Model.C11_Row Proofs.C11_Lex Proofs.C11_Fixed 
 Import ListNotations.
 Local Open Scope N_scope.
 
-Definition sof (v : value) : list value := match v with VStruct vs => vs | _ => [] end.
 Definition lof (v : value) : list value := match v with VList vs => vs | _ => [] end.
 
 (* ------------------------------------------------------------------ comparison combinators *)
@@ -227,7 +226,7 @@ Qed.
 (* ------------------------------------------------------------------ every field type *)
 Theorem enc_strong : forall t, wf_type t -> forall o, strong (wt t) (enc t o) (cmp_field t o).
 Proof.
-  induction t as [w|w| |w|n| |fs IH|c IH|c n IH|c IH] using ftype_ind'; intros Wt o.
+  induction t as [w|w| |w|n| |fs IH|c IH|c n IH|c IH|ws] using ftype_ind'; intros Wt o.
   - now apply int_strong.
   - apply uint_strong.
   - apply bool_strong.
@@ -239,4 +238,5 @@ Proof.
   - apply list_strong; [exact Wt | intros o'; now apply IH].
   - apply fsl_strong. intros o'. now apply IH.
   - apply ree_strong; [exact Wt | intros o'; now apply IH].
+  - apply iv_strong. now rewrite <- wf_type_iv.
 Qed.
